@@ -149,3 +149,23 @@ pub fn pred_real<const P: usize, S: Src>(s: &mut S) {
     };
     pv_check!(s, got == exp, "PV: table predicate (real generated 6.3.0 tables) = RFC 8264 section 9 category over the raw UCD, every u32");
 }
+
+/// Entry points and class pairing for every u32 with the predicates of the real data (S-PREDO): both classes, char and
+/// code-point entry points, against the oracle value.  Replayable natively (the outcomes are the real tables').
+pub fn entry_points<S: Src>(s: &mut S) {
+    let cp = s.u32();
+    pv_note!(s, "both classes, both entry points at {:#x}", cp);
+    super::stubs::predo_set(cp);
+    let v = oracle::dpv(cp);
+    let id = IdentifierClass::default();
+    let ff = FreeformClass::default();
+    pv_check!(s, id.get_value_from_codepoint(cp) == dpv_of(v / 8), "PV: IdentifierClass code point entry = RFC 8264 value");
+    pv_check!(s, ff.get_value_from_codepoint(cp) == dpv_of(v % 8), "PV: FreeformClass code point entry = RFC 8264 value");
+    if let Some(c) = char::from_u32(cp) {
+        pv_check!(s, id.get_value_from_char(c) == dpv_of(v / 8), "PV: IdentifierClass char entry = RFC 8264 value");
+        pv_check!(s, ff.get_value_from_char(c) == dpv_of(v % 8), "PV: FreeformClass char entry = RFC 8264 value");
+        pv_cover!(s, v == 2 * 8 + 1, "COVER: an ID_DIS / FREE_PVAL character");
+    } else {
+        pv_check!(s, v == 5 * 8 + 5, "PV: surrogates and values above U+10FFFF are DISALLOWED");
+    }
+}
